@@ -176,6 +176,17 @@ def random_fn(rng, name, profile, helpers=(), in_module=False, forbid_names=()):
     if rng.random() < P["p_lifetimes"] and not f.lifetimes and f.deps_kind in ("generic_ref", "impl_ref", "concrete_ref"):
         f.lifetimes.append(("'x", []))
         f.deps_lifetime = "'x"
+        if f.ret == "borrow_deps":
+            f.ret_lifetime = "'x"
+        if rng.random() < 0.6 and not f.extern_c and P.get("allow_sink", True):
+            # the named lifetime of the dependency is relied upon without appearing in the return type: something borrowed
+            # from the deps is pushed into a `&mut Vec<&'x str>` (invariant in 'x)
+            names = pick_names(rng, 1, taken)
+            taken |= set(names)
+            f.params.append(Param(TYPES["sink"], "plain", names, generic="&mut ::std::vec::Vec<&'x str>"))
+            if f.deps_kind != "concrete_ref" and "::vrt::HasName" not in f.bounds:
+                f.bounds.append("::vrt::HasName")
+            f.body_extra = ((f.body_extra + " ") if f.body_extra else "") + "%s.push(::vrt::HasName::name(%s));" % (names[0], f.deps_name)
     if f.deps_kind.startswith("impl") and not f.bounds:
         f.bounds = []
     return f
